@@ -39,7 +39,8 @@ import (
 // the theorems they feed; this component exercises what no model can show: races, panics, runtime deadlocks.
 type conc14Comp struct{}
 
-func init()                       { register("conc14", conc14Comp{}) }
+func init() { register("conc14", conc14Comp{}) }
+
 // OpTimeout: single operations of this component are whole runs / scans
 func (conc14Comp) OpTimeout() time.Duration { return 15 * time.Minute }
 
